@@ -53,3 +53,4 @@ def generate(rng, tier):
     return out
 
 MANIFEST = {'technique': 'Rocq simulation proof: the engine commutes with shifting every position; with C11, rendered line:column unchanged; the real engine is run at two base offsets per case and the two observations must be shifts of each other', 'text': 'Props/C12.v: C12_shift_engine (all combinators: nodes, errors, cache, logs shift uniformly), C12_placement_invariant (file alone vs behind arbitrary other files: same trees shifted, same error cause, identical error text), C12_rendered_unchanged (uses C11). The check parses every generated case alone and behind a filler file and requires observation2 = shift(observation1) on the implementation, and both equal to the model.', 'note': 'Trusted: as C01; positions >= 1 (File.SetOffset(0) excluded, C12_offset0_refuted documents why).', 'ref': 'DESIGN.md section 6, C12'}
+FAST = 12
